@@ -289,7 +289,7 @@ def part_interp(ctx, st, model):
             if not ctx.thorough() and nc == 5:
                 geoms = geoms[:3] + rng.sample(geoms[3:], 2)
             if ctx.thorough() and nc == 7:
-                geoms = geoms[:3] + rng.sample(geoms[3:], 2)
+                geoms = geoms[:2] + rng.sample(geoms[2:], 2)
             for (name, x, y) in geoms:
                 for code in range(4 ** nc):
                     add(name, x, y, [(code >> (2 * j)) & 3 for j in range(nc)])
@@ -751,8 +751,8 @@ def part_detect(ctx, st):
     for seed in seeds:
         x0, rs = background(seed, nc, ns, fs)
         check(x0, {}, {"op": "detect", "seed": seed, "fault": "none"}, {"op": "detect", "fault": "none", "where": "-"})
-        if ctx.thorough():
-            pos = list(range(nc))
+        if ctx.thorough():      # every position for the first seed, every 4th (and both ends) for the others
+            pos = list(range(nc)) if seed == seeds[0] else sorted(set(range(0, nc, 4)) | {1, nc - 2, nc - 1})
         else:
             pos = sorted({0, 1, 2, 5, 6, 190, 377, 378, 381, 382, 383} | {rng.randrange(nc) for _ in range(5)})
         for p in pos:
